@@ -106,33 +106,35 @@ type Task struct {
 }
 
 type simState struct {
-	cfg       Config
-	tasks     []*Task
-	cur       *Task
-	now       int64
-	steps     int64
-	contended int64
-	switches  int64
-	preempt   int64
-	spawns    int64
-	maxLive   int
-	mutexCont int64
-	mapIters  int64
-	mapPerm   int64
-	mapTies   int64
-	clockJmp  int64
-	rng       splitmix
-	maprng    splitmix
-	nextCP    int
-	lowPrio   int64
-	hash      uint64
-	ihash     uint64
-	events    []Event
-	panics    []PanicInfo
-	outcome   string
-	finished  bool
-	doneCh    chan struct{}
-	exitWG    sync.WaitGroup
+	cfg        Config
+	tasks      []*Task
+	cur        *Task
+	now        int64
+	steps      int64
+	contended  int64
+	switches   int64
+	preempt    int64
+	spawns     int64
+	maxLive    int
+	mutexCont  int64
+	mapIters   int64
+	mapPerm    int64
+	mapTies    int64
+	clockJmp   int64
+	rng        splitmix
+	maprng     splitmix
+	streakTask int
+	streak     int64
+	nextCP     int
+	lowPrio    int64
+	hash       uint64
+	ihash      uint64
+	events     []Event
+	panics     []PanicInfo
+	outcome    string
+	finished   bool
+	doneCh     chan struct{}
+	exitWG     sync.WaitGroup
 }
 
 // S is the active simulation, nil when none is running (pass-through mode).
@@ -273,6 +275,9 @@ func (s *simState) handoff(cur, next *Task, site int32) {
 	raceEnable()
 }
 
+// fairnessSlice is the number of consecutive contended yields one task may take before it is switched out.
+const fairnessSlice = 50000
+
 // Y is a yield point; the rewriter inserts one before every statement.
 //
 //go:norace
@@ -293,9 +298,31 @@ func (s *simState) yield(site int32, forceDecision bool) {
 		return
 	}
 	if s.runnableCount() < 2 {
+		s.streak = 0
 		return
 	}
 	s.contended++
+	// fairness: the Go scheduler is preemptive, so a task that spins (e.g. on an atomic flag or with
+	// runtime.Gosched) while others are runnable does not keep the processor for ever. After a long
+	// uninterrupted streak the task is switched out under every strategy; without this a spin-wait
+	// would exhaust the step budget under non-preemptive strategies and be misreported as a livelock.
+	if s.streakTask != cur.id {
+		s.streakTask, s.streak = cur.id, 0
+	}
+	s.streak++
+	if s.streak > fairnessSlice {
+		s.streak = 0
+		if s.cfg.Strategy == "pct" {
+			// demote the spinner, otherwise it would be switched straight back in
+			s.lowPrio--
+			cur.prio = s.lowPrio
+		}
+		if next := s.pickNext(cur); next != nil {
+			s.record("fair", cur.id, next.id, site, "")
+			s.handoff(cur, next, site)
+			return
+		}
+	}
 	switch s.cfg.Strategy {
 	case "pct":
 		if s.nextCP < len(s.cfg.ChangePoints) && s.contended >= s.cfg.ChangePoints[s.nextCP] {
